@@ -354,6 +354,13 @@ def met1(tier):
         spec = base()
         spec['met'] = {'M1': dict(c)}
         yield spec
+    # metric derived from a connector that is the (conditional / permanent) target of an EXCLUSION edge from a permanent source
+    for anchor in ('T1', 'T2'):
+        for r in (None, 0.5):
+            for t in (None, 'OBJECTIVE', 'CONSTRAINT'):
+                spec = _conn_spec('one', [('0..1', False, 'a')], [('0..1', False, 'o1'), ('0..1', False, 'a')], excl=[('S1', anchor)])
+                spec['met'] = {'M1': dict(anchor=anchor, dir=-1, ref=r, type=t)}
+                yield spec
     second = cfgs if tier != 'quick' else [dict(anchor='a', dir=-1, ref=None, type=None), dict(anchor='o2', dir=1, ref=0.5, type=None),
                                           dict(anchor='a', dir=1, ref=0.5, type='OBJECTIVE'), dict(anchor='z', dir=-1, ref=0.5, type='CONSTRAINT'),
                                           dict(anchor='o1', dir=None, ref=None, type=None), dict(anchor='a', dir=1, ref=0.5, type='NONE')]
